@@ -29,6 +29,7 @@ inline void mutate_bytes_once(std::vector<uint8_t>& b, Rng& r) {
 }
 inline void mutate_bytes(std::vector<uint8_t>& b, Rng& r, int max_mut = 4) { int n = (int)r.below((u64)max_mut + 1); for (int i = 0; i < n; ++i) mutate_bytes_once(b, r); }
 
+static int g_max_repeat = 3000;   // deep-nesting mutation: repetitions of one token (drivers lower it where unbounded recursion is a known finding)
 inline void mutate_text_once(std::string& t, Rng& r, const std::vector<std::string>& dict) {
     if (t.empty()) { t = r.pick(dict); return; }
     switch (r.below(10)) {
@@ -39,7 +40,7 @@ inline void mutate_text_once(std::string& t, Rng& r, const std::vector<std::stri
     case 4: t += r.pick(dict); break;
     case 5: { size_t a = r.below(t.size()), b = r.below(t.size()); std::swap(t[a], t[b]); break; }
     case 6: { size_t a = r.below(t.size()), b = r.below(t.size()); if (a > b) std::swap(a, b); std::string seg = t.substr(a, b - a); t.insert(r.below(t.size() + 1), seg); break; }
-    case 7: { size_t n = 1 + r.below(r.chance(1, 10) ? 3000 : 40); const std::string& tok = r.pick(dict); std::string rep; for (size_t i = 0; i < n && rep.size() < 8000; ++i) rep += tok; t.insert(r.below(t.size() + 1), rep); break; }   // deep nesting / repetition
+    case 7: { size_t n = 1 + r.below(r.chance(1, 10) ? (size_t)g_max_repeat : 40); const std::string& tok = r.pick(dict); std::string rep; for (size_t i = 0; i < n && rep.size() < 8000; ++i) rep += tok; t.insert(r.below(t.size() + 1), rep); break; }   // deep nesting / repetition
     case 8: { static const char* nums[] = {"-9223372036854775808", "9223372036854775807", "18446744073709551615", "18446744073709551616", "-1", "0", "1e400", "-0", "4294967296", "2147483648", "99999999999999999999999", "1e-400", "0.1", "::0", "-"}; t.insert(r.below(t.size() + 1), r.pick(nums)); break; }
     default: { size_t i = r.below(t.size()); t[i] = (char)(t[i] ^ (1 << r.below(7))); break; }
     }
